@@ -12,6 +12,11 @@ package main
 //   nser:<k>,<fcd>,<payload>,<fields> SerializeTo of a value built from public fields
 //   nrt:<k>,<payload>,<fields>        round trip of a value built from public fields
 //   nlt:<p>                           IPProtocol(p).LayerType()
+//   seq:<d>,<spec>+<spec>+...         stacks written one after the other with gopacket.SerializeLayers /
+//                                     SerializePacket (FixLengths+ComputeChecksums) into ONE reused buffer (mode d):
+//        P<hex>                 SerializePacket of NewPacket(hex) (a hop-by-hop header is a layer of its own there)
+//        L<ip6 fields>^<payload>   SerializeLayers(ip6, Payload): the hop-by-hop header only as IPv6.HopByHop
+//        H<ip6 fields>^<payload>   SerializeLayers(ip6, ip6.HopByHop, Payload): the header also as its own layer
 // <payload> = hex or *<n>x<hexbyte>.
 // <fields>: ext  next!hlen!alen!opts   with opts = type~olen~alen~datahex~ax~ay|...
 //           ip6  ver.tc.flow.len.nh.hop.srchex.dsthex.<ext fields or ->
@@ -257,6 +262,8 @@ func (lip6) Run(c Case) Result {
 			continue
 		}
 		switch name {
+		case "seq":
+			lip6Seq(a, &res, tags)
 		case "nlt":
 			res.Obs = append(res.Obs, fmt.Sprintf("lt=%d", int(layers.IPProtocol(n6atoi(a[0])).LayerType())))
 			tags["dispatch-table"] = true
@@ -430,6 +437,85 @@ func (lip6) Run(c Case) Result {
 	}
 	res.Tags = n6tagset(tags)
 	return res
+}
+
+// lip6Seq: packets written into one reused buffer; every output goes through the round-trip oracle.
+func lip6Seq(a []string, res *Result, tags map[string]bool) {
+	mode := n6atoi(a[0])
+	buf := n6buffer(mode, nil)
+	opts := gopacket.SerializeOptions{FixLengths: true, ComputeChecksums: true}
+	var obs []string
+	tags["reused-buffer-layers"] = true
+	for i, spec := range strings.Split(a[1], "+") {
+		var ip *layers.IPv6
+		var stack []gopacket.SerializableLayer
+		var wantPayload []byte
+		switch spec[0] {
+		case 'P':
+			p := gopacket.NewPacket(n6unhex(spec[1:]), layers.LayerTypeIPv6, gopacket.Default)
+			if p.ErrorLayer() != nil {
+				obs = append(obs, "x")
+				continue
+			}
+			for _, l := range p.Layers() {
+				sl, ok := l.(gopacket.SerializableLayer)
+				if !ok {
+					stack = nil
+					break
+				}
+				stack = append(stack, sl)
+			}
+			ip, _ = p.Layer(layers.LayerTypeIPv6).(*layers.IPv6)
+			if ip == nil || stack == nil {
+				obs = append(obs, "x")
+				continue
+			}
+			wantPayload = append([]byte(nil), ip.Payload...)
+		case 'L', 'H':
+			f, pl, _ := strings.Cut(spec[1:], "^")
+			payload := n6payload(pl)
+			ip = lip6Build("ip6", f).ip
+			stack = []gopacket.SerializableLayer{ip}
+			if spec[0] == 'H' && ip.HopByHop != nil {
+				stack = append(stack, ip.HopByHop)
+			}
+			stack = append(stack, gopacket.Payload(payload))
+			wantPayload = payload
+		default:
+			panic("Lip6 seq spec " + spec)
+		}
+		cls := n6call(func() error { return gopacket.SerializeLayers(buf, opts, stack...) })
+		var out []byte
+		if cls == "ok" {
+			out = n6clip(buf.Bytes())
+		}
+		obs = append(obs, cls+":"+n6big(out))
+		if cls == "panic" {
+			res.Oracle = append(res.Oracle, n6oracle("C07:panic", "packet %d of a sequence on a reused buffer: SerializeLayers panics (%s)", i, spec[:min(len(spec), 120)]))
+		}
+		if cls != "ok" {
+			continue
+		}
+		// C06 on every packet of the sequence: the bytes decode to the layer as FixLengths left it
+		o := &lip6Obj{k: "ip6", ip: ip}
+		o2 := lip6New("ip6")
+		df := &n6fb{}
+		cls2 := n6decode(func() error { return o2.decode(n6clip(out), df) })
+		jumbo := len(wantPayload) > 65535
+		if cls2 != "ok" || df.t || o2.c06() != o.c06() {
+			res.Oracle = append(res.Oracle, n6oracle("C06:roundtrip", "packet %d (%c) of a sequence on a reused buffer wrote %s; got %s trunc=%d %s; want %s", i, spec[0], n6big(out), cls2, n6b2i(df.t), o2.c06(), o.c06()))
+		} else if string(o2.payload()) != string(wantPayload) {
+			clause := "C06:roundtrip"
+			if jumbo {
+				clause = "C06:jumbo-payload"
+			}
+			res.Oracle = append(res.Oracle, n6oracle(clause, "ip6 packet %d of a sequence: payload after the round trip is %s, written %s", i, n6big(o2.payload()), n6big(wantPayload)))
+		}
+		if jumbo {
+			tags["jumbo"] = true
+		}
+	}
+	res.Obs = append(res.Obs, "seq="+strings.Join(obs, "#"))
 }
 
 func lip6DataTags(k string, data []byte, tags map[string]bool) {
@@ -842,6 +928,55 @@ func (lip6) Gen(rng *rand.Rand, tier string) []Case {
 		add(fmt.Sprintf("dec:%s,%s", k, n6hex(b)))
 		if i%3 == 0 {
 			add(fmt.Sprintf("ser:%s,%s,%d%d%d,%s", k, n6hex(b), rng.Intn(2), rng.Intn(2), rng.Intn(3), lip6Payload(rng)))
+		}
+	}
+	// sequences of stacks on one reused SerializeBuffer: decoded stacks (hop-by-hop header as a layer of
+	// its own), built IPv6 with the header as a field only, both, FixLengths jumbograms; every order
+	{
+		addr := "fe800000000000000000000000000001.fe800000000000000000000000000002"
+		mkL := func(kind byte, hbh string, pl string) string {
+			nh := 59
+			if hbh != "-" {
+				nh = 0
+			}
+			return fmt.Sprintf("%c6.%d.%d.0.%d.%d.%s.%s^%s", kind, rng.Intn(256), rng.Intn(1<<20), nh, rng.Intn(256), addr, hbh, pl)
+		}
+		mkP := func(withHbh bool, plen int) string {
+			ext := []byte(nil)
+			nh := byte(59)
+			if withHbh {
+				ext = lip6ValidExt(rng, 1+rng.Intn(3), 59)
+				for i := 2; i < len(ext); {
+					if ext[i] == 0 {
+						i++
+						continue
+					}
+					if ext[i] == 0xc2 {
+						ext[i] = 0x3e
+					}
+					i += 2 + int(ext[i+1])
+				}
+				nh = 0
+			}
+			b := lip6FixedHeader(rng, nh, len(ext)+plen)
+			b = append(b, ext...)
+			return "P" + n6hex(append(b, n6randBytes(rng, plen)...))
+		}
+		hbhF := func() string { return "59!0!0!" + fmt.Sprintf("5~2~4~%s~0~0", n6hex(n6randBytes(rng, 2))) + "|" + lip6RandTlvFields(rng, true) }
+		for rep := 0; rep < 6*scale; rep++ {
+			specs := [][]string{
+				{mkP(true, 9), mkL('L', hbhF(), lip6Payload(rng)), mkL('L', "-", "*65536xab")},
+				{mkL('L', hbhF(), lip6Payload(rng)), mkP(true, 5), mkL('L', hbhF(), "0102")},
+				{mkL('H', hbhF(), lip6Payload(rng)), mkL('L', hbhF(), lip6Payload(rng)), mkP(false, 7), mkL('L', hbhF(), "01")},
+				{mkL('L', "-", "*65540x01"), mkP(true, 3), mkL('L', "-", "*65536xcd"), mkL('L', hbhF(), "")},
+				{mkP(true, 1), mkL('H', hbhF(), "0102"), mkL('L', "-", "01"), mkL('L', hbhF(), "0304")},
+			}
+			for _, sp := range specs {
+				for k, x := range sp { // the jumbo specs keep a clean option list
+					sp[k] = strings.Replace(x, "|194~", "|30~", -1)
+				}
+				add(fmt.Sprintf("seq:%d,%s", rng.Intn(3), strings.Join(sp, "+")))
+			}
 		}
 	}
 	lip6xGen(rng, scale, add)
